@@ -341,7 +341,24 @@ def md023(m, cfg):
 
 def md024(m, cfg):
     if cfg.get("siblings_only") or cfg.get("allow_different_nesting"):
-        return [], ALL
+        # page: duplicates are allowed unless they are siblings (same level under the same parent heading).
+        # Enforced one-sidedly: the same text at a DIFFERENT level is never a sibling (must not report);
+        # the same text, same level, same chain of parent headings is a twin (must report); else abstain.
+        exp, abstain = [], set()
+        stack = []  # (level, text)
+        seen = {}
+        for h in m.headings():
+            while stack and stack[-1][0] >= h["level"]:
+                stack.pop()
+            chain = tuple(stack)
+            prev = seen.setdefault(h["text"], [])
+            if any(lv == h["level"] and ch == chain for lv, ch in prev):
+                exp.append(_span(h))
+            elif any(lv == h["level"] for lv, ch in prev):
+                abstain |= _span(h)
+            prev.append((h["level"], chain))
+            stack.append((h["level"], h["text"]))
+        return exp, abstain
     seen = {}
     exp, abstain = [], set()
     for h in m.headings():
@@ -594,6 +611,7 @@ GRIDS = {
     "md012": [{"maximum": 2}],
     "md013": [{"line_length": 12}, {"line_length": 12, "strict": True}, {"line_length": 12, "code_blocks": False, "code_block_line_length": 12}, {"line_length": 12, "headings": False, "heading_line_length": 12}, {"heading_line_length": 5}, {"code_block_line_length": 5}, {"heading_line_length": 3}, {"heading_line_length": 5, "strict": True}, {"code_block_line_length": 3, "strict": True}, {"line_length": 5, "heading_line_length": 30, "code_block_line_length": 30}],
     "md022": [{"lines_above": 0}, {"lines_below": 0}, {"lines_above": 2, "lines_below": 2}],
+    "md024": [{"siblings_only": True}, {"allow_different_nesting": True}],
     "md025": [{"level": 2}],
     "md026": [{"punctuation": ".?"}],
     "md035": [{"style": "***"}, {"style": "---"}],
